@@ -501,6 +501,7 @@ fn exec(st: &mut Stats, seed: u64, seq: Vec<Step>, v: Variant) {
     st.evaluations += 1;
     st.engine("SIM", 1);
     let sh = sim::Shared::new(mix(seed, 9), (seed % 4) as u8);
+    crate::util::set_current(format!("c10 run_seed {seed} sequence {:?} variant {v:?}", seq.iter().map(|s| format!("{}:{}", OPS[s.op as usize], TARGETS[s.target as usize])).collect::<Vec<_>>()));
     let (seq2, v2) = (seq.clone(), v.clone());
     let end = sim::run(&sh, move |sh| run_case(sh, seed, seq2, v2));
     let log = sh.take_log();
